@@ -83,6 +83,9 @@ class Sched:
         # whose entry/exit is logged (to see two threads inside the same function at once)
         self.trace_codes: set = set()
         self.watch_codes: set = set()
+        # opt-in: entering a watched function is a scheduling point as well (the thread is parked INSIDE the frame, so an
+        # overlap of two threads in that function becomes observable without tracing its every line)
+        self.watch_preempt: bool = False
         self.frames: List[tuple] = []
         self.on_wake: Optional[Callable[[VThread, Optional[str]], None]] = None
         self.on_frame: Optional[Callable[[str, str, str], None]] = None
@@ -151,6 +154,8 @@ class Sched:
             self.frames.append(("enter", me.name, code.co_name))
             if self.on_frame is not None:
                 self.on_frame("enter", me.name, code.co_name)
+            if self.watch_preempt and code not in self.trace_codes:
+                self.preempt_point(frame)
 
             def local(fr, ev, a, _code=code, _me=me):
                 if ev == "line" and _code in self.trace_codes:
